@@ -97,6 +97,7 @@ struct Options {
     int shrink_budget = 3000;
     double shrink_seconds = 120;
     bool verbose = false;
+    unsigned shard = 0, nshards = 1;     // enum mode: this process takes first-choice values == shard (mod nshards)
 };
 
 // ---------------------------------------------------------------- worker --
@@ -110,7 +111,7 @@ static int worker_run(const Options &o, bool enumerate) {
     bool truncated = false, exhausted = false;
     uint64_t overruns = 0;
     std::vector<uint64_t> prefix;
-    uint64_t i = 0;
+    uint64_t i = 0, n_eval = 0;
     int rc = 0;
     for (; i < o.count; i++) {
         if ((double)(now_ns() - t0) / 1e9 > o.max_seconds) { truncated = true; break; }
@@ -126,8 +127,26 @@ static int worker_run(const Options &o, bool enumerate) {
         g_sh->case_index = i; g_sh->case_seed = c.rng; g_sh->case_size = c.size;
         g_sh->case_start_ns = now_ns();
         rc = run_one(c);
-        g_sh->evaluations = i + 1;
-        if (rc != 0) break;
+        // enum sharding: tapes are partitioned into blocks by their first ENUM_L choices; a
+        // block belongs to shard hash(block) % nshards.  One representative of every foreign
+        // block is still run (it supplies the arities the odometer needs) but not counted.
+        const size_t ENUM_L = 3;
+        bool mine = true;
+        if (enumerate && o.nshards > 1) {
+            uint64_t h = 0x1234; for (size_t q = 0; q < ENUM_L; q++) h = mix(h, q < c.pos ? g_sh->tape[q] : 0);
+            mine = (h % o.nshards) == o.shard;
+        }
+        if (rc != 0) { g_sh->evaluations = n_eval + 1; break; }
+        if (!mine) {
+            size_t n = std::min(c.pos, ENUM_L);
+            prefix.assign(g_sh->tape, g_sh->tape + n);
+            ssize_t k = (ssize_t)n - 1;
+            while (k >= 0 && prefix[k] + 1 >= g_sh->arity[k]) k--;
+            if (k < 0) { exhausted = true; break; }
+            prefix[k]++; prefix.resize(k + 1);
+            continue;
+        }
+        g_sh->evaluations = ++n_eval;
         for (int k = 0; k < c.nlabels; k++) labels[c.label_ids[k]]++;
         for (int k = 0; k < c.nmax; k++) { auto it = maxima.find(c.max_ids[k]); if (it == maxima.end() || c.max_vals[k] > it->second) maxima[c.max_ids[k]] = c.max_vals[k]; }
         if (c.is_nontrivial) {
@@ -141,7 +160,7 @@ static int worker_run(const Options &o, bool enumerate) {
             prefix.assign(g_sh->tape, g_sh->tape + n);
             ssize_t k = (ssize_t)n - 1;
             while (k >= 0 && prefix[k] + 1 >= g_sh->arity[k]) k--;
-            if (k < 0) { exhausted = true; i++; break; }
+            if (k < 0) { exhausted = true; break; }
             prefix[k]++; prefix.resize(k + 1);
         } else if (c.overrun) overruns++;
     }
@@ -155,7 +174,7 @@ static int worker_run(const Options &o, bool enumerate) {
         if (!f) { perror(o.stats.c_str()); return 4; }
         fprintf(f, "{\n \"property\": \"%s\",\n \"mode\": \"%s\",\n \"seed\": %llu,\n", PBT_PROPERTY,
                 enumerate ? "enum" : "run", (unsigned long long)o.seed);
-        fprintf(f, " \"evaluations\": %llu,\n \"distinct_nontrivial\": %zu,\n", (unsigned long long)i, distinct.size());
+        fprintf(f, " \"evaluations\": %llu,\n \"distinct_nontrivial\": %zu,\n", (unsigned long long)n_eval, distinct.size());
         fprintf(f, " \"truncated\": %s,\n \"exhausted\": %s,\n", truncated ? "true" : "false", exhausted ? "true" : "false");
         fprintf(f, " \"wall_s\": %.3f,\n", (double)(now_ns() - t0) / 1e9);
         fprintf(f, " \"labels\": {");
@@ -424,6 +443,7 @@ int main(int argc, char **argv) {
         else if (a == "--inproc") o.inproc = true;
         else if (a == "--shrink-budget") o.shrink_budget = atoi(val());
         else if (a == "--shrink-seconds") o.shrink_seconds = atof(val());
+        else if (a == "--enum-shard") { const char *v = val(); o.shard = (unsigned)atoi(v); const char *sl = strchr(v, '/'); o.nshards = sl ? (unsigned)atoi(sl + 1) : 1; if (o.nshards < 1) o.nshards = 1; }
         else if (a == "-v") o.verbose = true;
         else { fprintf(stderr, "unknown option %s\n", a.c_str()); return 2; }
     }
